@@ -246,6 +246,102 @@ def init_walkers(ctx):
     else:
         ctx.rep.note(f"{fi.qualname}: no eigh eigenvector matrix reaches a returned walker; ordering rule not applicable")
 
+    # ORTH-1: the columns of a returned walker are orthonormal by construction (eigenvectors of a Hermitian matrix,
+    # the Q factor of a QR, a product of such with a unitary).  Positive witness: the returned orbitals are a sum /
+    # rescaling of orthonormal vectors that no QR follows (normalising column by column does not make them orthogonal).
+    def _is_zero_const(x):
+        x = strip_wrappers(x)
+        return x.op == "const" and isinstance(x.args[0], (int, float, complex)) and x.args[0] == 0
+
+    def orth(t, depth=0):
+        t = strip_wrappers(t)
+        if depth > 12:
+            return None
+        if t.op == "getitem":
+            b = strip_wrappers(t.args[0])
+            if b.op == "call":
+                fn_ = (array_fn(b) or "").split(".")[-1]
+                if fn_ == "eigh" and t.args[1].op == "const" and t.args[1].args[0] == 1:
+                    return True
+                if fn_ == "qr" and t.args[1].op == "const" and t.args[1].args[0] == 0:
+                    return True
+            if t.args[1].op in ("tuple", "slice"):
+                return orth(b, depth + 1)
+            return None
+        if t.op == "binop":
+            o, l, r = t.args
+            if o in ("+", "-"):
+                if _is_zero_const(l):
+                    return orth(r, depth + 1)
+                if _is_zero_const(r):
+                    return orth(l, depth + 1)
+                ol, orr = orth(l, depth + 1), orth(r, depth + 1)
+                if ol is not None or orr is not None or any(orth(x, depth + 1) for x in _vec_factors(l) + _vec_factors(r)):
+                    return False
+                return None
+            if o == "@":
+                ol, orr = orth(l, depth + 1), orth(r, depth + 1)
+                return True if ol and orr else (False if ol is False or orr is False else None)
+            if o in ("/", "*"):
+                ol = orth(l, depth + 1)
+                orr = orth(r, depth + 1) if o == "*" else None
+                other = r if ol is not None else l
+                if (ol is not None or orr is not None) and strip_wrappers(other).op != "const":
+                    return False
+                return None
+            return None
+        if t.op == "call":
+            fn_ = (array_fn(t) or "").split(".")[-1]
+            f_, pos_, _ = call_parts(t)
+            if fn_ in ("matmul", "dot") and len(pos_) == 2:
+                ol, orr = orth(pos_[0], depth + 1), orth(pos_[1], depth + 1)
+                return True if ol and orr else (False if ol is False or orr is False else None)
+            if f_.op == "attr" and f_.args[1] == "dot" and len(pos_) == 1:
+                ol, orr = orth(f_.args[0], depth + 1), orth(pos_[0], depth + 1)
+                return True if ol and orr else (False if ol is False or orr is False else None)
+        return None
+
+    def _vec_factors(t):
+        """array operands of an einsum / product that scales columns"""
+        t = strip_wrappers(t)
+        if t.op == "call" and (array_fn(t) or "").split(".")[-1] == "einsum":
+            return [x for x in call_parts(t)[1][1:]]
+        if t.op == "binop" and t.args[0] == "*":
+            return [t.args[1], t.args[2]]
+        return []
+
+    def walker_cores(t):
+        """the orbital matrices replicated into the returned container"""
+        out = []
+        t = strip_wrappers(t)
+        if t.op == "list" and len(t.args) == 2 and not _replicated_list(t):
+            for x in t.args:
+                out += walker_cores(x)
+            return out
+        for x in subterms(t):
+            if x.op == "list" and len(x.args) == 1:
+                out.append(x.args[0])
+        return out
+
+    def _replicated_list(t):
+        return False
+
+    seen_cores = set()
+    for path, term, line in ret_leaves:
+        for c in walker_cores(term):
+            c0 = strip_wrappers(c)
+            if c0.uid in seen_cores:
+                continue
+            seen_cores.add(c0.uid)
+            v = orth(c0)
+            if v is False:
+                ctx.rep.ob("ORTH-1", f"{fi.qualname}: returned orbitals are orthonormal by construction", False,
+                           f"{show(c0, maxdepth=3)[:90]} is a sum / rescaling of orthonormal vectors with no QR after it: the "
+                           f"columns are normalised at best, not orthogonal", p.modules[fi.module].path, line)
+            elif v is True:
+                ctx.rep.ob("ORTH-1", f"{fi.qualname}: returned orbitals are orthonormal by construction", True,
+                           "eigenvectors / Q factor / product with a unitary", p.modules[fi.module].path, line)
+
     is_restricted = lambda c: c is restricted
     for k, (path, term, line) in enumerate(ret_leaves):
         pol = polarity(path, is_restricted)
